@@ -916,36 +916,71 @@ pub fn cmd_replay(path: &str) -> i32 {
 // Miri tier
 // ---------------------------------------------------------------------------
 
-/// Runs every `stride`-th directed trace and `seeded` seeded traces in this
-/// process. Meant to be interpreted by Miri: undefined behaviour, invalid
-/// frees and leaks are reported by Miri itself (non-zero exit); the model
-/// oracles still run and report through the return code.
-pub fn cmd_miri(prop: Prop, base: u64, stride: u64, seeded: u64) -> i32 {
-    let mut bad = 0;
+/// Native helper for the Miri tier: writes every `stride`-th directed trace
+/// and `seeded` (size-bounded) seeded traces as replay blocks. Generating the
+/// corpus inside the interpreter would cost minutes; executing it is the point.
+pub fn cmd_dump_traces(prop: Prop, base: u64, stride: u64, seeded: u64) -> i32 {
     let directed = gen::directed(prop);
-    let mut items: Vec<(Mode, u64, Trace)> = Vec::new();
     let mut i = 0u64;
+    let mut out = String::new();
+    let mut emit = |mode: Mode, idx: u64, mut t: Trace| {
+        t.cfg = Config::BASELINE;
+        let rep = Replay { trace: t, seed: base, repo_rev: "n/a".into(), expect_sig: "none".into(), expect_digest: 0, note: "miri".into() };
+        out.push_str(&format!("=== {} {} {}\n", prop.id(), mode.name(), idx));
+        out.push_str(&rep.to_text());
+    };
     while (i as usize) < directed.len() && stride > 0 {
-        items.push((Mode::Directed, i, directed[i as usize].clone()));
+        emit(Mode::Directed, i, directed[i as usize].clone());
         i += stride;
     }
-    for idx in 0..seeded {
+    let mut taken = 0;
+    let mut idx = 0u64;
+    while taken < seeded && idx < seeded * 20 {
         let t = gen::gen_trace(prop, mix(base, idx));
         // keep interpretation time bounded: short traces, moderate contents
-        if t.ops.len() <= 24 && t.ops.iter().all(|o| o.b.iter().map(|b| b.len()).sum::<usize>() <= 1200) {
-            items.push((Mode::Seeded, idx, t));
+        // and no operation that leaks by contract (a `new_boxed` whose content
+        // the kind's `dst_len` rejects after the allocation was made): Miri's
+        // end-of-run leak check is wanted for everything else
+        if t.ops.len() <= 24
+            && t.ops.iter().all(|o| o.b.iter().map(|b| b.len()).sum::<usize>() <= 1200)
+            && !t.ops.iter().any(crate::interp::leaks_by_contract)
+        {
+            emit(Mode::Seeded, idx, t);
+            taken += 1;
         }
+        idx += 1;
     }
-    for (mode, idx, mut t) in items {
-        t.cfg = Config::BASELINE;
-        println!("MIRI-TRACE {} {} {}", prop.id(), mode.name(), idx);
-        let out = crate::interp::execute(prop, &t);
+    print!("{out}");
+    0
+}
+
+/// Executes the replay blocks of `path` in this process. Meant to be
+/// interpreted by Miri (isolation disabled for the one file read): undefined
+/// behaviour, invalid frees and leaks are reported by Miri itself (non-zero
+/// exit); the model oracles still run and report through the return code.
+pub fn cmd_miri_file(path: &str) -> i32 {
+    let Ok(text) = std::fs::read_to_string(path) else {
+        println!("HARNESS-ERROR: cannot read {path}");
+        return 2;
+    };
+    let mut bad = 0;
+    let mut prop_id = String::new();
+    for block in text.split("=== ").skip(1) {
+        let (head, body) = block.split_once('\n').unwrap_or((block, ""));
+        let Ok(rep) = Replay::from_text(body) else {
+            println!("HARNESS-ERROR: cannot parse block {head}");
+            return 2;
+        };
+        let Some(prop) = Prop::from_id(&rep.trace.property) else { return 2 };
+        prop_id = prop.id().to_string();
+        println!("MIRI-TRACE {head}");
+        let out = crate::interp::execute(prop, &rep.trace);
         for v in &out.violations {
             println!("MIRI-ORACLE-VIOLATION {} op {}: {}", v.sig, v.op, v.detail);
             bad += 1;
         }
     }
-    println!("MIRI-DONE {}", prop.id());
+    println!("MIRI-DONE {prop_id}");
     if bad > 0 {
         1
     } else {
